@@ -157,7 +157,7 @@ def r4(ctx):
             continue
         lk = evs[0].extra["result"]
         var, pl = variant_of(p.ret)
-        if p.state.discr.get(lk) == 1:
+        if d2(p, lk) == 1:
             hit = True
             rep.check(var == "Ok" and lookup_of(pl) == lk and not map_writes(p), "get_by_key:hit", "hit -> Ok(clone of the stored record)", "get_by_key hit returns %s" % short(p.ret, 100), b.loc())
         else:
@@ -185,7 +185,7 @@ def r4(ctx):
             continue
         if tform(calls[0].args[1]) != F(P("get_request"), "key"):
             rep.bad("handler:get:key", "BinaryHandler::get looks up %s instead of the request key" % short(calls[0].args[1], 80), hb.loc())
-        if p.state.discr.get(calls[0].result) != 0:
+        if d2(p, calls[0].result) != 0:
             continue
         n += 1
         rec = ("field", ("as", calls[0].result, "Ok"), "0")
